@@ -1,3 +1,3 @@
 From Coq Require Import ExtrOcamlBasic NArith List.
 From LV Require Import lib.Conv model.VecIndex spec.FcSpec spec.ElectionSpec.
-Extraction "model.ml" conv_roots reference fc_crosscheck.
+Extraction "model.ml" conv_roots reference reference_epochs fc_crosscheck.
